@@ -27,7 +27,7 @@ OUTSIDE = ['narrowing casts of 16-bit PCM into a requested 1-byte dtype (C cast 
            'file objects that return short reads before EOF (regular files and BytesIO do not)',
            'shorten-compressed payloads (C13)', 'header fields other than the mandatory ones; malformed field lines']
 ASSUMPTIONS = [
-    'the data section does not START with the shorten magic (the file is declared uncompressed); any later read block may begin with these four bytes (symbolic Boolean per block)',
+    'samples are arbitrary: any read block, the first included, may begin with the four bytes of the shorten magic (symbolic Boolean per block); the decoder entering the shorten path for a file whose header declares it uncompressed is a violation (data offset 0: known finding C12-ajkg-prefix)',
     'file.read(n) returns min(n, remaining) bytes (io.BufferedReader / BytesIO contract)',
     'np.frombuffer(buf, dtype, count) element j = bytes [j*size,(j+1)*size) of buf in the given byte order (uninterpreted SAMP(offset,size,order)), ValueError if buf is too small',
     'ndarray.byteswap() of an item that holds `itemsize` bytes decoded in one order = the same bytes decoded in the other order; of any other item: an unresolved BSWAP term',
@@ -101,11 +101,11 @@ class Buf:
         return Buf(s.off, smin(s.n, k.stop))
 
     def __eq__(s, o):
-        # comparison of the first four bytes with b"ajkg": the payload is declared not shorten-compressed, i.e. the data
-        # section does not START with the magic; any later block may well begin with these four bytes (arbitrary samples)
+        # comparison of the first four bytes with b"ajkg": the file is declared uncompressed by its header, its samples are
+        # arbitrary, so any block -- the first one included -- may begin with these four bytes (symbolic Boolean per block)
         off = z3.simplify(s.off)
-        if z3.is_int_value(off) and off.as_long() == 0:
-            return False
+        if not decide(_z(s.n) >= 4):
+            return False        # fewer than four bytes cannot equal the four-byte magic
         return decide(z3.Bool('block_at_%s_starts_with_ajkg' % off))
 
     def _slen(s):
@@ -276,8 +276,6 @@ def run_copy(cfg):
         try:
             data = ns['copy_samples'](f, hdr, dt, IOError('x'))
         except ShortenEntered as e:
-            if str(e) == '0':
-                return ('ok-empty',)        # cannot happen: the first block is declared not to start with the magic
             return ('magic', 'the shorten decoder is entered for the block at data offset %s of an uncompressed file' % e, str(e))
         except Exception as e:
             symex.guard(e)
